@@ -67,6 +67,30 @@ func filterImage(image bufimage.Image, options *imageFilterOptions) (bufimage.Im
 				return nil, err
 			}
 		}
+		// Without included types every element that is not marked is kept (see hasType),
+		// also the elements of the imports that are still used. What those elements
+		// reference must then be kept as well, otherwise the imports they need are
+		// dropped and the result does not link: add the used imports as a whole,
+		// until no further import becomes used.
+		for changed := true; changed; {
+			changed = false
+			for _, file := range image.Files() {
+				if !file.IsImport() {
+					continue
+				}
+				if _, ok := closure.imports[file.Path()]; !ok {
+					continue
+				}
+				fileDescriptorProto := file.FileDescriptorProto()
+				if mode := closure.elements[fileDescriptorProto]; mode == inclusionModeExcluded || mode == inclusionModeExplicit {
+					continue
+				}
+				if err := closure.addElement(fileDescriptorProto, "", false, imageIndex, options); err != nil {
+					return nil, err
+				}
+				changed = true
+			}
+		}
 	}
 	// After all types are added, add their known extensions
 	if err := closure.addExtensions(imageIndex, options); err != nil {
